@@ -2,6 +2,7 @@
     [simplify] mirrors simplify.c:11-158 case by case; [eval] is the SPEC: a definitional interpreter of the
     let-fragment of the analysed core language (constants, lexical references, set!, if, begin, applications of
     arithmetic opcodes, of a literal lambda (= let) and of the output procedure). *)
+From Coq Require Import QArith.
 From ChibiV Require Import C09.Ast.
 Local Open Scope Z_scope.
 
@@ -17,7 +18,7 @@ Definition is_arith (o : Z) : bool := (0 <=? o) && (o <=? 5).    (* sexp_opcode_
 
 (** value of the application of arithmetic opcode [o] to constants, [None] when the evaluation raises
     (non-number, zero divisor, wrong number of arguments) — simplify.c:46-58 runs the real VM for this, vm.c.
-    [/] (o = 3) is outside the model (its results are not integers): always [None]. *)
+    [/] (o = 3) and operands that are ratios go through [prim_eval_qs] below. *)
 Definition prim_eval_ints (o : Z) (zs : list Z) : option const :=
   if o =? 0 then Some (CInt (fold_left Z.add zs 0))
   else if o =? 1 then Some (CInt (fold_left Z.mul zs 1))
@@ -38,12 +39,57 @@ Definition prim_eval_ints (o : Z) (zs : list Z) : option const :=
   else if o =? 11 then match zs with [a; b] => Some (CBool (a =? b)) | _ => None end      (* numeric equality *)
   else None.
 
+(** exact rationals (round 2): operands that are integers or ratios, at least one division or ratio involved.
+    SPEC = Coq's Q, results brought to lowest terms; an integer-valued result is an integer (as the reader and the
+    arithmetic of the implementation normalise it).  [/] raises on an exact zero divisor and without arguments. *)
+Definition q_of (c : const) : option Q :=
+  match c with CInt z => Some (inject_Z z) | CRat n d => Some (Qmake n d) | _ => None end.
+
+Fixpoint qs_of (cs : list const) : option (list Q) :=
+  match cs with
+  | [] => Some []
+  | c :: r => match q_of c, qs_of r with Some q, Some qs => Some (q :: qs) | _, _ => None end
+  end.
+
+Definition const_of_q (q : Q) : const :=
+  let r := Qred q in if Pos.eqb (Qden r) 1 then CInt (Qnum r) else CRat (Qnum r) (Qden r).
+
+Definition q_is_zero (q : Q) : bool := Qnum q =? 0.
+
+(** (/ a b c ...) = ((a / b) / c) ...; None as soon as a divisor is zero *)
+Fixpoint q_div_all (acc : Q) (qs : list Q) : option Q :=
+  match qs with
+  | [] => Some acc
+  | q :: r => if q_is_zero q then None else q_div_all (Qdiv acc q) r
+  end.
+
+Definition prim_eval_qs (o : Z) (qs : list Q) : option const :=
+  if o =? 0 then Some (const_of_q (fold_left Qplus qs (inject_Z 0)))
+  else if o =? 1 then Some (const_of_q (fold_left Qmult qs (inject_Z 1)))
+  else if o =? 2 then match qs with
+                      | [] => None
+                      | [q] => Some (const_of_q (Qopp q))
+                      | q :: r => Some (const_of_q (fold_left Qminus r q))
+                      end
+  else if o =? 3 then match qs with
+                      | [] => None
+                      | [q] => if q_is_zero q then None else Some (const_of_q (Qinv q))
+                      | q :: r => match q_div_all q r with Some x => Some (const_of_q x) | None => None end
+                      end
+  else None.      (* quotient / remainder of a ratio: outside the model (the generator never produces it) *)
+
 Definition prim_eval (o : Z) (cs : list const) : option const :=
   match cs with
   | [c] => if (o =? 0) || (o =? 1)
            then Some c      (* one-argument sum and product compile to the argument itself, whatever it is (eval.c generate_opcode_app) *)
-           else match ints_of cs with Some zs => prim_eval_ints o zs | None => None end
-  | _ => match ints_of cs with Some zs => prim_eval_ints o zs | None => None end
+           else match ints_of cs with
+                | Some zs => if o =? 3 then match qs_of cs with Some qs => prim_eval_qs o qs | None => None end else prim_eval_ints o zs
+                | None => match qs_of cs with Some qs => prim_eval_qs o qs | None => None end
+                end
+  | _ => match ints_of cs with
+         | Some zs => if o =? 3 then match qs_of cs with Some qs => prim_eval_qs o qs | None => None end else prim_eval_ints o zs
+         | None => match qs_of cs with Some qs => prim_eval_qs o qs | None => None end
+         end
   end.
 
 (** ------------------------------------------------------------------ simplify (simplify.c:11-158) *)
